@@ -19,11 +19,11 @@ NCPU = int(os.environ.get("VERIF_JOBS", str(os.cpu_count() or 8)))
 
 LIB_SRCS = ["half.cpp", "ImathFun.cpp", "ImathColorAlgo.cpp", "ImathMatrixAlgo.cpp", "ImathRandom.cpp"]
 
-COMMON = ["-std=gnu++17", "-g", "-ffp-contract=off", "-fno-strict-aliasing", "-Wno-deprecated-declarations", "-pthread"]
+COMMON = ["-std=gnu++17", "-ffp-contract=off", "-fno-strict-aliasing", "-Wno-deprecated-declarations", "-pthread"]
 VARIANTS = {
     # name: (compiler, flags)
     "fast": ("g++", ["-O2", "-fno-tree-vectorize"] + COMMON),
-    "san": ("clang++", ["-O1", "-fsanitize=address,undefined", "-fno-sanitize-recover=undefined", "-fno-omit-frame-pointer"] + COMMON),
+    "san": ("clang++", ["-O1", "-gline-tables-only", "-fsanitize=address,undefined", "-fno-sanitize-recover=undefined", "-fno-omit-frame-pointer"] + COMMON),
     "fuzz": ("clang++", ["-O1", "-fsanitize=fuzzer,address,undefined", "-fno-sanitize-recover=undefined", "-DVP_FUZZ=1"] + COMMON),
 }
 LIBFLAGS_OVERRIDE = {"fuzz": ["-O1", "-fsanitize=fuzzer-no-link,address,undefined", "-fno-sanitize-recover=undefined"] + COMMON}
@@ -31,9 +31,9 @@ LIBFLAGS_OVERRIDE = {"fuzz": ["-O1", "-fsanitize=fuzzer-no-link,address,undefine
 # property table ---------------------------------------------------------------
 PROPS = {
     "C01": dict(tu="c01_half.cpp", san_scale=1.0 / 64, fuzz_s=0),
-    "C02": dict(kind="c02"),
+    "C02": dict(tu="c02_backends.cpp", variants=["fast"], prebuild="c02", link_extra=["-ldl"], fuzz_s=0),
     "C03": dict(tu="c03_halftype.cpp", san_scale=1.0 / 64, fuzz_s=0),
-    "C04": dict(tu="c04_component.cpp", san_scale=0.1, fuzz_s=0),
+    "C04": dict(tu=["c04_p%d.cpp" % i for i in range(1, 11)], san_scale=0.1, fuzz_s=0),
     "C05": dict(tu="c05_products.cpp", san_scale=0.1, fuzz_s=60),
     "C06": dict(tu="c06_inverse.cpp", san_scale=0.1, fuzz_s=60),
     "C07": dict(tu="c07_exc.cpp", san_scale=0.1, fuzz_s=60),
@@ -133,7 +133,8 @@ def build_binary(prop, variant, extra_flags=()):
     cc, flags = VARIANTS[variant]
     flags = list(flags) + list(extra_flags)
     inc = ["-I", cfg, "-I", os.path.join(REPO, "src", "Imath"), "-I", HERE]
-    harness_files = [os.path.join(HERE, spec["tu"])] + glob.glob(os.path.join(HERE, "*.h"))
+    tus = spec["tu"] if isinstance(spec["tu"], list) else [spec["tu"]]
+    harness_files = [os.path.join(HERE, t) for t in tus] + glob.glob(os.path.join(HERE, "*.h"))
     hkey = sha_files(harness_files, extra=" ".join([cc] + flags) + cfgkey + tkey)[:20]
     bindir = os.path.join(BUILD, "bin")
     os.makedirs(bindir, exist_ok=True)
@@ -155,25 +156,130 @@ def build_binary(prop, variant, extra_flags=()):
         os.makedirs(objdir, exist_ok=True)
     jobs = []
     objs = []
+    tmp_objs = []
     with cf.ThreadPoolExecutor(max_workers=NCPU) as ex:
         for s in LIB_SRCS:
             o = os.path.join(objdir, s.replace(".cpp", ".o"))
             objs.append(o)
             if not os.path.exists(o):
-                jobs.append(ex.submit(compile_one, [cc] + libflags + inc + ["-c", os.path.join(REPO, "src", "Imath", s), "-o", o + ".tmp.o"], o + ".tmp.o"))
-        tuo = exe + ".o"
-        jobs.append(ex.submit(compile_one, [cc] + flags + inc + ["-c", os.path.join(HERE, spec["tu"]), "-o", tuo], tuo))
+                tmpo = "%s.%d.tmp.o" % (o, os.getpid())
+                tmp_objs.append((tmpo, o))
+                jobs.append(ex.submit(compile_one, [cc] + libflags + inc + ["-c", os.path.join(REPO, "src", "Imath", s), "-o", tmpo], tmpo))
+        tuos = []
+        for ti, t in enumerate(tus):
+            tuo = "%s.%d.%d.o" % (exe, os.getpid(), ti)
+            tuos.append(tuo)
+            jobs.append(ex.submit(compile_one, [cc] + flags + inc + ["-c", os.path.join(HERE, t), "-o", tuo], tuo))
         for j in jobs:
             j.result()
-    for o in objs:
-        if os.path.exists(o + ".tmp.o"):
-            os.replace(o + ".tmp.o", o)
-    link = [cc] + flags + [tuo] + objs + ["-o", exe + ".tmp", "-lquadmath", "-lm"]
-    compile_one(link, exe + ".tmp")
-    os.replace(exe + ".tmp", exe)
-    os.remove(tuo)
+    for tmpo, o in tmp_objs:
+        if os.path.exists(tmpo):
+            os.replace(tmpo, o)
+    tmpexe = "%s.%d.tmp" % (exe, os.getpid())
+    link = [cc] + flags + tuos + objs + ["-o", tmpexe, "-lquadmath", "-lm"] + spec.get("link_extra", [])
+    compile_one(link, tmpexe)
+    os.replace(tmpexe, exe)
+    for tuo in tuos:
+        try:
+            os.remove(tuo)
+        except OSError:
+            pass
     return exe
 
+
+C02_CONFIGS = [
+    # name, compiler, language, extra flags, config-dir kind
+    ("gxx17-table", "g++", "c++", ["-std=gnu++17"], "default"),
+    ("gxx14-table", "g++", "c++", ["-std=gnu++14"], "default"),
+    ("gxx20-table", "g++", "c++", ["-std=gnu++20"], "default"),
+    ("clangxx17-table", "clang++", "c++", ["-std=gnu++17"], "default"),
+    ("gxx17-notable", "g++", "c++", ["-std=gnu++17", "-DIMATH_HALF_NO_LOOKUP_TABLE"], "default"),
+    ("gxx14-notable", "g++", "c++", ["-std=gnu++14", "-DIMATH_HALF_NO_LOOKUP_TABLE"], "default"),
+    ("gxx20-notable", "g++", "c++", ["-std=gnu++20", "-DIMATH_HALF_NO_LOOKUP_TABLE"], "default"),
+    ("clangxx17-notable", "clang++", "c++", ["-std=gnu++17", "-DIMATH_HALF_NO_LOOKUP_TABLE"], "default"),
+    ("gxx17-cmake-lookup-off", "g++", "c++", ["-std=gnu++17"], "lookup_off"),
+    ("clangxx17-cmake-lookup-off", "clang++", "c++", ["-std=gnu++17"], "lookup_off"),
+    ("gcc-c11-table", "gcc", "c", ["-std=gnu11"], "default"),
+    ("gcc-c11-notable", "gcc", "c", ["-std=gnu11", "-DIMATH_HALF_NO_LOOKUP_TABLE"], "default"),
+    ("gcc-c99-notable", "gcc", "c", ["-std=gnu99", "-DIMATH_HALF_NO_LOOKUP_TABLE"], "default"),
+    ("clang-c11-table", "clang", "c", ["-std=gnu11"], "default"),
+    ("clang-c11-notable", "clang", "c", ["-std=gnu11", "-DIMATH_HALF_NO_LOOKUP_TABLE"], "default"),
+    ("gcc-c11-cmake-lookup-off", "gcc", "c", ["-std=gnu11"], "lookup_off"),
+    ("gxx17-f16c", "g++", "c++", ["-std=gnu++17", "-mf16c"], "default"),
+    ("clangxx17-f16c", "clang++", "c++", ["-std=gnu++17", "-mf16c"], "default"),
+    ("gcc-c11-f16c", "gcc", "c", ["-std=gnu11", "-mf16c"], "default"),
+    ("gxx17-f16c-notable", "g++", "c++", ["-std=gnu++17", "-mf16c", "-DIMATH_HALF_NO_LOOKUP_TABLE"], "default"),
+]
+
+
+def cpu_has_f16c():
+    try:
+        return " f16c" in open("/proc/cpuinfo").read()
+    except OSError:
+        return False
+
+
+def c02_prebuild():
+    """Build one shared object per half.h configuration from the working tree (content-hash cached)."""
+    cfg, cfgkey = config_dir()
+    tkey = tree_key()
+    shim_files = [os.path.join(HERE, f) for f in ("c02_shim.inc", "c02_shim.c", "c02_shim.cpp")]
+    key = sha_files(shim_files, extra=cfgkey + tkey + repr(C02_CONFIGS))[:20]
+    d = os.path.join(BUILD, "c02-" + key)
+    marker = os.path.join(d, "done.json")
+    if not os.path.exists(marker):
+        for old in glob.glob(os.path.join(BUILD, "c02-*")):
+            shutil.rmtree(old, ignore_errors=True)
+        os.makedirs(d, exist_ok=True)
+        # config header as generated by the real build with the lookup table option OFF
+        offd = os.path.join(d, "cfg-lookup-off")
+        r = run(["cmake", "-S", REPO, "-B", offd, "-G", "Ninja", "-DBUILD_TESTING=OFF", "-DPYTHON=OFF", "-DIMATH_HALF_USE_LOOKUP_TABLE=OFF"])
+        if r.returncode != 0 or not os.path.exists(os.path.join(offd, "config", "ImathConfig.h")):
+            raise BuildError("cmake configure (lookup off) failed:\n" + r.stdout[-2000:])
+        cfgdirs = dict(default=cfg, lookup_off=os.path.join(offd, "config"))
+        f16c = cpu_has_f16c()
+        built = []
+        skipped = []
+
+        def build_cfg(item):
+            name, cc, lang, fl, ck = item
+            inc = ["-I", cfgdirs[ck], "-I", os.path.join(REPO, "src", "Imath"), "-I", HERE]
+            base = ["-O2", "-fPIC", "-fvisibility=hidden", "-ffp-contract=off", "-Wno-deprecated-declarations"]
+            cxx = {"gcc": "g++", "clang": "clang++"}.get(cc, cc)
+            cxxstd = [x for x in fl if not x.startswith("-std=")] + (["-std=gnu++17"] if lang == "c" else [x for x in fl if x.startswith("-std=")])
+            ho = os.path.join(d, name + ".half.o")
+            so = os.path.join(d, name + ".shim.o")
+            lib = os.path.join(d, "lib%s.so" % name)
+            compile_one([cxx] + base + cxxstd + inc + ["-c", os.path.join(REPO, "src", "Imath", "half.cpp"), "-o", ho], ho)
+            compile_one([cc] + base + fl + inc + ["-c", os.path.join(HERE, "c02_shim.c" if lang == "c" else "c02_shim.cpp"), "-o", so], so)
+            compile_one([cxx, "-shared", "-Wl,-Bsymbolic", "-o", lib, so, ho], lib)
+            return name, lib
+
+        todo = []
+        for item in C02_CONFIGS:
+            if "-mf16c" in item[3] and not f16c:
+                skipped.append(item[0])
+                continue
+            todo.append(item)
+        with cf.ThreadPoolExecutor(max_workers=NCPU) as ex:
+            for name, lib in ex.map(build_cfg, todo):
+                built.append((name, lib))
+        # generator program
+        gen = os.path.join(d, "toFloat")
+        compile_one(["g++", "-O1", os.path.join(REPO, "src", "Imath", "toFloat.cpp"), "-o", gen], gen)
+        r = subprocess.run([gen], stdout=subprocess.PIPE, text=True)
+        if r.returncode != 0:
+            raise BuildError("toFloat generator failed")
+        with open(os.path.join(d, "generated_toFloat.txt"), "w") as f:
+            f.write(r.stdout)
+        with open(marker, "w") as f:
+            json.dump(dict(built=built, skipped=skipped), f)
+    info = json.load(open(marker))
+    return dict(VP_C02_CONFIGS=";".join("%s=%s" % (n, p) for n, p in info["built"]), VP_C02_GENERATED=os.path.join(d, "generated_toFloat.txt"),
+                VP_C02_SHIPPED=os.path.join(REPO, "src", "Imath", "toFloat.h"), VP_C02_SKIPPED=",".join(info["skipped"]))
+
+
+PREBUILD = {"c02": c02_prebuild}
 
 SAN_ENV = dict(ASAN_OPTIONS="exitcode=99:detect_leaks=0:abort_on_error=0:allocator_may_return_null=1", UBSAN_OPTIONS="exitcode=99:print_stacktrace=1:halt_on_error=1")
 
@@ -222,20 +328,27 @@ ASSUME_CPP = [
 def run_cpp(prop, tier, seed, only=None):
     spec = PROPS[prop]
     t0 = time.time()
-    tu = os.path.join(HERE, spec["tu"])
-    if not os.path.exists(tu):
-        print("ERROR harness %s missing" % tu)
-        return 2
+    for t in (spec["tu"] if isinstance(spec["tu"], list) else [spec["tu"]]):
+        if not os.path.exists(os.path.join(HERE, t)):
+            print("ERROR harness %s missing" % t)
+            return 2
+    variants = spec.get("variants", ["fast", "san"])
+    extra_env = {}
     try:
         config_dir()
         with cf.ThreadPoolExecutor(max_workers=3) as ex:
             jf = ex.submit(build_binary, prop, "fast")
-            js = ex.submit(build_binary, prop, "san")
-            fast, san = jf.result(), js.result()
+            js = ex.submit(build_binary, prop, "san") if "san" in variants else None
+            jp = ex.submit(PREBUILD[spec["prebuild"]]) if spec.get("prebuild") else None
+            fast = jf.result()
+            san = js.result() if js else None
+            if jp:
+                extra_env = jp.result()
     except BuildError as e:
         print("ERROR build failed (not a verdict)")
         log(str(e))
         return 2
+    os.environ.update(extra_env)
     log("[%s] built in %.1fs" % (prop, time.time() - t0))
     saved_dir = os.path.join(VERIF, "replays", prop)
     rdir = os.path.join(os.environ["VERIF_REPLAY_DIR"], prop) if os.environ.get("VERIF_REPLAY_DIR") else os.path.join(VERIF, "replays", prop, "found")
@@ -251,6 +364,8 @@ def run_cpp(prop, tier, seed, only=None):
     n_replayed = 0
     for rp in saved:
         for exe, is_san in ((fast, False), (san, True)):
+            if exe is None:
+                continue
             rc, out = replay_on(exe, rp, is_san)
             n_replayed += 1
             if rc == 1:
@@ -277,6 +392,8 @@ def run_cpp(prop, tier, seed, only=None):
     tmpd = os.path.join(BUILD, "run", "%s-%d" % (prop, os.getpid()))
     os.makedirs(tmpd, exist_ok=True)
     for name, exe in (("fast", fast), ("san", san)):
+        if exe is None:
+            continue
         out = os.path.join(tmpd, name + ".json")
         cmd = [exe, "--tier", tier, "--seed", str(seed if name == "fast" else seed + 7919), "--threads", str(NCPU if name == "fast" else max(4, NCPU // 2)), "--out", out, "--replay-dir", rdir]
         if name == "san":
@@ -317,7 +434,10 @@ def run_cpp(prop, tier, seed, only=None):
                     known_hits[f["key"]] = f["msg"]
                     excluded_known += f["count"]
                     continue
-                rc, out = replay_on(other, f["replay"], san=(name == "fast"))
+                if other is None:
+                    rc, out = 1, ""
+                else:
+                    rc, out = replay_on(other, f["replay"], san=(name == "fast"))
                 if rc == 1 or rc == 99 or rc < 0:
                     violations.append((f["replay"], "%s: %s | case: %s" % (f["key"], f["msg"], f["case"])))
                 else:
@@ -366,7 +486,12 @@ def run_cpp(prop, tier, seed, only=None):
     for k in kn:
         if k["key"] in known_hits:
             print("KNOWN-FINDING: property=%s %s" % (prop, k.get("what", k["key"])))
+    seen_keys = set()
     for rp, msg in violations:
+        k = msg.split(":", 1)[0]
+        if k in seen_keys:
+            continue
+        seen_keys.add(k)
         print("VIOLATION property=%s replay=%s" % (prop, rp))
         print("  " + msg[:1500])
     if violations:
@@ -463,23 +588,22 @@ def main():
         if a.replay:
             try:
                 fast = build_binary(a.prop, "fast")
-                san = build_binary(a.prop, "san")
+                san = build_binary(a.prop, "san") if "san" in spec.get("variants", ["fast", "san"]) else None
+                if spec.get("prebuild"):
+                    os.environ.update(PREBUILD[spec["prebuild"]]())
             except BuildError as e:
                 print("ERROR build failed")
                 log(str(e))
                 return 2
             rc, out = replay_on(fast, a.replay)
             print(out, end="")
-            rc2, out2 = replay_on(san, a.replay, san=True)
+            rc2, out2 = replay_on(san, a.replay, san=True) if san else (rc, "")
             print(out2, end="")
             if rc == 1 and rc2 != 0:
                 print("VIOLATION property=%s replay=%s" % (a.prop, a.replay))
                 return 1
             return 0 if rc == 0 and rc2 == 0 else 2
         return run_cpp(a.prop, a.tier, seed, a.only)
-    if kind == "c02":
-        import c02_backends
-        return c02_backends.main(a.tier, seed, a.replay)
     if kind == "py":
         import pydriver
         return pydriver.main(a.prop, a.tier, seed, a.replay)
